@@ -84,6 +84,24 @@ CHECKS["C08"] = dict(
     design_ref="DESIGN.md section 4 C08",
     note=TB)
 
+CHECKS["C09"] = dict(
+    category="other",
+    technique="dispatch matrix + exception-effect analysis + guard/idiom rules on the index, lookup, duplicate-key and macro implementations",
+    text="Decides the 'errors, never values' clause: the list index cell rejects negative indexes; indexing errors are converted by both runners; both map "
+         "constructors test duplicates before inserting; invalid regular expressions become error values; map lookups decide presence by membership. Adds shape "
+         "checks tying size/startsWith/endsWith/contains and each macro implementation to the primitive their definition needs. The laws relating several "
+         "evaluations (map/filter/exists_one/in) are value-level and not decided.",
+    design_ref="DESIGN.md section 4 C09",
+    note=TB)
+CHECKS["C10"] = dict(
+    category="other",
+    technique="must-pass-through analysis of the constructor ladders against the range decorators (interval extraction), domination of DurationType construction by its range test",
+    text="Every arm of IntType/UintType.__new__ that builds from a foreign kind selects a converter wrapped by the class's range decorator (or is a recorded "
+         "exemption); manual guards are accepted only if the interval they accept lies inside the target range; doubles truncate toward zero; hex arms use radix 16 "
+         "with the right prefix length; DurationType construction is dominated by the +-315,576,000,000 s test; text conversions use UTF-8. Round-trip identities are not decided.",
+    design_ref="DESIGN.md section 4 C10",
+    note=TB)
+
 PENDING = {}  # property id -> reason, for properties not claimed
 
 def main():
